@@ -434,6 +434,28 @@ fn snapshot_border(ctx: &Ctx) {
                 run_to_frame_end(&mut e, m128);
                 run_to_frame_end(&mut e, m128);
                 compare(ctx, &e, m128, b, &[], json!({"kind":"snapshot","m128":m128,"border":b,"format":name}), &format!("snapshot-border:{}", name));
+                // the restored program writes the very byte the previous program had written last
+                let prev = (b + 3) % 8;
+                rig::poke(&mut e, IDLE, &[0xF3, 0x18, 0xFE]);
+                rig::poke(&mut e, OUTC, &[0xED, 0x79, 0xC3, IDLE as u8, (IDLE >> 8) as u8]);
+                out_at(&mut e, 100, prev);
+                let mut r = RegsView::default();
+                r.pc = IDLE;
+                r.sp = 0xBF00;
+                rig::set_regs(e.verif_cpu(), &r);
+                run_to_frame_end(&mut e, m128);
+                run_to_frame_end(&mut e, m128);
+                let got: u8 = e.border_color().into();
+                ctx.add_eval(1);
+                if got != prev {
+                    ctx.violation(
+                        &format!("C09:snapshot-border:{}:write-after-load", name),
+                        &format!("{} snapshot with border {} loaded over a program that had last written {}, then the restored program writes {} again: border_color() reports {}", name, b, prev, prev, got),
+                        json!({"kind":"snapshot","m128":m128,"border":b,"format":name}),
+                    );
+                    continue;
+                }
+                compare(ctx, &e, m128, prev, &[], json!({"kind":"snapshot","m128":m128,"border":b,"format":name}), &format!("snapshot-border:{}:write-after-load", name));
             }
         }
     }
@@ -488,7 +510,7 @@ pub fn run(tier: Tier, seed: u64, replay: Option<String>) -> i32 {
     ctx.sample(json!({"write":"OUT (FE),2 with the I/O cycle at T=20000..20004","judged":"every border pixel whose beam time is more than 8 T away from the cycle"}));
     ctx.note("not_judged", json!("pixels within 16 pixels (8 T) of the I/O cycle of a write; the canvas area of the border buffer"));
     ctx.finish(
-        "one OUT (C),A to an even port (rotating over six even port addresses incl. ones that also select the 128K paging latch) executed by the emulated CPU with its start at every T of the frame (quick: complete first-visible, first-picture, middle, last-picture and last-visible lines plus both ends of the frame), every ordered pair of OUTs inside one line at three line positions (step 3 T thorough / 12 T quick), a write-free frame after every case, two-frame histories of two writes each with repeated colours at four places of the frame (576 per machine), writes straddling the frame wrap, SNA/SZX snapshot borders for all 8 colours; an interrupt-driven program writing a scripted colour at a scripted time of every frame, run with 1..4 frames per emulate_frames call (the delivered frame judged with the I/O cycles recorded on a single-stepped twin); the completed 320x240 border buffer is compared with the beam model (pixel (x,y) at T = first_pixel + (y-24)*line + (x-32)/2) outside an 8-T band around each I/O cycle; border_color() after every write. distinct = (judged pixel count, colour) outcomes",
+        "one OUT (C),A to an even port (rotating over six even port addresses incl. ones that also select the 128K paging latch) executed by the emulated CPU with its start at every T of the frame (quick: complete first-visible, first-picture, middle, last-picture and last-visible lines plus both ends of the frame), every ordered pair of OUTs inside one line at three line positions (step 3 T thorough / 12 T quick), a write-free frame after every case, two-frame histories of two writes each with repeated colours at four places of the frame (576 per machine), writes straddling the frame wrap, SNA/SZX snapshot borders for all 8 colours, each followed by the restored program writing again the byte the previous program had written last; an interrupt-driven program writing a scripted colour at a scripted time of every frame, run with 1..4 frames per emulate_frames call (the delivered frame judged with the I/O cycles recorded on a single-stepped twin); the completed 320x240 border buffer is compared with the beam model (pixel (x,y) at T = first_pixel + (y-24)*line + (x-32)/2) outside an 8-T band around each I/O cycle; border_color() after every write. distinct = (judged pixel count, colour) outcomes",
         false,
         &["frame clock placed through the hook; the remaining frame is idle loop", "I/O cycle extent = from 8 T after the OUT starts to the end of the instruction"],
     )
